@@ -290,10 +290,179 @@ Section Prog.
     exfalso. eapply plt_irrefl. eapply plt_ple_trans; eauto.
   Qed.
 
+  Lemma ple_antisym a b : ple a b -> ple b a -> a = b.
+  Proof. intros [->|H1] [E|H2]; auto. exfalso. eapply plt_asym; eauto. Qed.
+
+  Lemma all_wait (ws : list wpcs) : sumf wait_of ws = length ws -> forall pc, In pc ws -> pc = PWait.
+  Proof.
+    induction ws as [|p ws IH]; intros H pc I; [destruct I|]. rewrite sumf_cons in H. cbn [length] in H.
+    assert (wait_of p <= 1) by (destruct p as [| | | |[]]; cbn; lia).
+    assert (sumf wait_of ws <= length ws).
+    { clear. induction ws as [|q ws IH]; [unfold sumf; cbn; lia|]. rewrite sumf_cons. cbn [length].
+      assert (wait_of q <= 1) by (destruct q as [| | | |[]]; cbn; lia). lia. }
+    destruct I as [<-|I]; [|apply IH; auto; lia].
+    destruct p as [| | | |[]]; cbn in *; try lia. reflexivity.
+  Qed.
+
+  (* side condition on the regenerated task list: every task is scheduled *)
+  Lemma all_tasks_listed : forall t, In t task_order.
+  Proof. intros []; cbn; tauto. Qed.
+
+  Lemma select_none_not_ready (s : state) t : select s = None -> ready s t = false.
+  Proof.
+    unfold select, select_first. intros H. exact (find_none _ _ H t (all_tasks_listed t)).
+  Qed.
+
+  Lemma in_items_coll (s : state) ib : In ib (coll_q s) -> In (iv_ib ib) (items s).
+  Proof. intros H. unfold SchedCOrder.items. apply in_or_app. left. apply in_map; auto. Qed.
+  Lemma in_items_trans (s : state) wb : In wb (trans_q s) -> In (iv_wb wb) (items s).
+  Proof. intros H. unfold SchedCOrder.items. apply in_or_app. right. apply in_or_app. left. apply in_map; auto. Qed.
+  Lemma in_items_reord (s : state) wb : In wb (reord_q s) -> In (iv_wb wb) (items s).
+  Proof.
+    intros H. unfold SchedCOrder.items. apply in_or_app. right. apply in_or_app. right. apply in_or_app. left.
+    apply in_map; auto.
+  Qed.
+
+  (* no quiescent non-final state *)
+  Lemma quiescent_false (s : state) : Inv s -> Inv2 s -> OInv s -> PInv s -> NL s -> 1 <= nw s ->
+    lock s = None -> sumf awake_of (workers s) = 0 -> wakeups s = 0 ->
+    (rd s = RIdle /\ in_slots s = 0 \/ rd s = RDone) ->
+    (wr s = SIdle /\ output_q s = [] /\ finish s = false \/ wr s = SDone) ->
+    ~ (forallb (@is_exit _) (workers s) = true /\ finish s = false /\ rd s = RDone) ->
+    final s = false -> False.
+  Proof.
+    intros I J O P Hnl N L Aw Wk Hrd Hwr Hmain NF.
+    pose proof (sum_classes Data Enc (workers s)) as Cl. pose proof (i_hold I) as Ih. rewrite L in Ih. cbn in Ih.
+    pose proof (i_len I) as Il.
+    destruct (Nat.eq_dec (sumf exited_of (workers s)) 0) as [Ex|Ex].
+    2:{ (* some worker has exited: the process has finished *)
+      destruct (sumf_pos_ex exited_of (workers s) ltac:(lia)) as (j & pc & Hj & Hp).
+      assert (pc = PExit) by (destruct pc as [| | | |[]]; cbn in Hp; try lia; reflexivity). subst pc.
+      pose proof (j_exit J _ Hj) as Fin.
+      destruct (finished_facts _ _ _ I Fin) as (Fe & Fc & Fw & Fo & Ft & Fr & Fq & Fu & Fwo & _).
+      assert (Wz : sumf wait_of (workers s) = 0).
+      { destruct (Nat.eq_dec (sumf wait_of (workers s)) 0) as [|Wn]; auto. exfalso.
+        destruct (Hnl L) as [U|U]; [right; split; [exact Fin|lia]|lia|lia]. }
+      assert (Hall : forallb (@is_exit _) (workers s) = true).
+      { apply forallb_forall. intros pc Hpc.
+        destruct (In_nth_error _ _ Hpc) as [k Hk].
+        pose proof (sumf_ge_nth hold_of _ _ _ Hk). pose proof (sumf_ge_nth wait_of _ _ _ Hk).
+        pose proof (sumf_ge_nth awake_of _ _ _ Hk).
+        destruct pc as [| | | |[]]; cbn in *; try lia; reflexivity. }
+      assert (Erd : rd s = RDone).
+      { pose proof (j_eof J) as E. rewrite Fe in E. destruct (rd s); cbn in E; try discriminate. reflexivity. }
+      destruct (finish s) eqn:Ef; [|apply Hmain; auto].
+      destruct Hwr as [(_ & _ & Hf)|Hwd]; [congruence|].
+      unfold final in NF. rewrite Hall, Erd, Hwd in NF. discriminate NF. }
+    (* nobody has exited: every worker waits, nothing is ready, not finished *)
+    assert (Wn : sumf wait_of (workers s) = length (workers s)) by lia.
+    pose proof (all_wait _ Wn) as Allw.
+    assert (Hnr : is_some (next_task s) = false /\ finished s = false).
+    { destruct (is_some (next_task s)) eqn:E1.
+      - exfalso. destruct (Hnl L (or_introl E1)); lia.
+      - split; auto. destruct (finished s) eqn:E2; auto. exfalso.
+        destruct (Hnl L) as [U|U]; [right; split; [exact E2|lia]|lia|lia]. }
+    destruct Hnr as [Hn Hf].
+    assert (Sel : select s = None).
+    { rewrite <- (i_nt I). destruct (next_task s); [discriminate Hn|reflexivity]. }
+    destruct Hwr as [(Ew & Eq & Efin)|Hwd].
+    2:{ destruct (j_wr J) as [F _]; [rewrite Hwd; reflexivity|].
+        pose proof (j_finish J F) as Hall. rewrite forallb_forall in Hall.
+        destruct (workers s) as [|pc ws] eqn:Ews; [cbn in Il; lia|].
+        specialize (Hall pc (or_introl eq_refl)). rewrite (Allw pc (or_introl eq_refl)) in Hall. discriminate Hall. }
+    (* workers hold nothing *)
+    assert (Zf : forall f : wpcs -> nat, f PWait = 0 -> sumf f (workers s) = 0).
+    { intros f Hf0. apply sumf_all_zero. intros x Hx. rewrite (Allw x Hx). exact Hf0. }
+    pose proof (i_units I) as Hu. pose proof (i_in I) as Hi. pose proof (i_out I) as Ho.
+    rewrite (Zf (@units_of Data Enc) eq_refl), (o_unf O) in Hu. cbn [is_some b2n] in Hu.
+    rewrite (Zf (@in_of Data Enc) eq_refl) in Hi. rewrite (Zf (@out_of Data Enc) eq_refl), Ew, Eq in Ho. cbn [length SchedCInv.wr_out] in Ho.
+    assert (Wi : flat_map (@items_pc Data Enc) (workers s) = []).
+    { clear -Allw. induction (workers s) as [|pc ws IH]; auto. cbn.
+      rewrite (Allw pc (or_introl eq_refl)). cbn. apply IH. intros x Hx. apply Allw. right; auto. }
+    pose proof (o_tile O) as T.
+    assert (Bnd : forall x, In x (items s) -> ple (order s) (fst x)) by (intros x Hx; apply (tiling_in _ _ _ _ T Hx)).
+    assert (Hdec : items s = [] \/ items s <> []) by (destruct (items s); [left; reflexivity|right; discriminate]).
+    destruct Hdec as [Eit|Nit].
+    { (* nothing in flight *)
+      unfold SchedCOrder.items in Eit. rewrite Wi, (o_unf O) in Eit. cbn in Eit. rewrite app_nil_r in Eit.
+      destruct (coll_q s) eqn:Ec; [|discriminate Eit]. destruct (trans_q s) eqn:Et; [|discriminate Eit].
+      destruct (reord_q s) eqn:Er; [|discriminate Eit]. cbn [length] in Hu, Hi, Ho.
+      destruct Hrd as [(Erd & Ein)|Erd].
+      - rewrite Erd, Ein in Hi. cbn [SchedCInv.rd_in] in Hi. pose proof (total_in_pos (nw s) N). lia.
+      - pose proof (j_eof J) as E. rewrite Erd in E. cbn in E.
+        unfold finished, can_terminate in Hf. cbn [view g_eof g_coll_q g_work_units g_num_worker g_out_slots g_total_out_slots] in Hf.
+        rewrite E, Ec in Hf. cbn [map q_empty andb] in Hf.
+        assert (E1 : work_units s =? nw s = true) by (apply Nat.eqb_eq; lia).
+        assert (E2 : out_slots s =? total_out (nw s) = true) by (apply Nat.eqb_eq; lia).
+        rewrite E1, E2 in Hf. discriminate Hf. }
+    destruct (tiling_nonempty_head _ _ _ T Nit) as [b Hb].
+    unfold SchedCOrder.items in Hb. rewrite Wi, (o_unf O) in Hb. cbn [SchedCOrder.opt_wb app] in Hb.
+    rewrite app_nil_r in Hb.
+    apply in_app_or in Hb. destruct Hb as [Hb|Hb]; [|apply in_app_or in Hb; destruct Hb as [Hb|Hb]].
+    - (* the block at [order] is still an input block: a work unit must be free *)
+      apply in_map_iff in Hb. destruct Hb as (ib & Eib & Iib).
+      assert (Ep : ib_pos ib = order s) by (unfold SchedCOrder.iv_ib in Eib; congruence).
+      destruct (sorted_head_at (@ib_pos Data) _ _ _ (p_sc _ _ _ P) Iib Ep) as (h & t & Ec & Eh).
+      { intros y Hy. apply (Bnd (iv_ib y)). apply in_items_coll; auto. }
+      pose proof (select_none_not_ready _ T_collect Sel) as Nr.
+      unfold ready, task_guard, can_collect in Nr. cbn [view g_ultra g_coll_q g_work_units] in Nr.
+      rewrite (o_ultra O), Ec in Nr. cbn [map q_empty negb andb] in Nr. apply Nat.ltb_ge in Nr.
+      assert (W0 : work_units s = 0) by lia.
+      destruct (p_unit _ _ _ P W0 ltac:(rewrite Ec; discriminate)) as (p & Hp & Hlt).
+      specialize (Hlt h ltac:(rewrite Ec; left; reflexivity)). rewrite Eh in Hlt.
+      destruct Hp as [(wb & Iw & Ew')|(k & pc & Hk & Ek)].
+      + pose proof (Bnd _ (in_items_trans _ _ Iw)) as B1. cbn in B1. rewrite Ew' in B1.
+        eapply plt_irrefl. eapply plt_ple_trans; eauto.
+      + rewrite (Allw pc (nth_error_In _ _ Hk)) in Ek. discriminate Ek.
+    - (* it waits in trans_q: an output slot must be available *)
+      apply in_map_iff in Hb. destruct Hb as (wb & Ewb & Iwb).
+      assert (Ep : wb_pos wb = order s) by (unfold SchedCOrder.iv_wb in Ewb; congruence).
+      destruct (sorted_head_at (@wb_pos Enc) _ _ _ (p_st _ _ _ P) Iwb Ep) as (h & t & Et & Eh).
+      { intros y Hy. apply (Bnd (iv_wb y)). apply in_items_trans; auto. }
+      pose proof (select_none_not_ready _ T_transmit Sel) as Nr.
+      unfold ready, task_guard, can_transmit in Nr. cbn [view g_trans_q g_out_slots g_order] in Nr.
+      rewrite Et in Nr. cbn [map q_empty negb andb peek_pos hd] in Nr. rewrite Eh in Nr.
+      assert (Epe : pos_eq (order s) (order s) = true) by (apply pos_eq_spec; reflexivity).
+      rewrite Epe, andb_true_r in Nr. apply orb_false_iff in Nr. destruct Nr as [_ Nr]. apply Nat.ltb_ge in Nr.
+      pose proof (p_res _ _ _ P) as Res. unfold SchedCLive.reserve in Res.
+      rewrite (Zf (le_order_pc (order s)) eq_refl), Eq, Ew in Res. cbn in Res.
+      pose proof thresh_pos as Tp.
+      assert (Hle : 0 < le_order_q (order s) (reord_q s)) by lia.
+      unfold SchedCLive.le_order_q in Hle.
+      destruct (filter (fun wb0 => pos_le (wb_pos wb0) (order s)) (reord_q s)) as [|w2 r2] eqn:Ef; [cbn in Hle; lia|].
+      assert (I2 : In w2 (filter (fun wb0 => pos_le (wb_pos wb0) (order s)) (reord_q s))) by (rewrite Ef; left; reflexivity).
+      apply filter_In in I2. destruct I2 as [I2 L2]. apply pos_le_spec in L2.
+      pose proof (Bnd _ (in_items_reord _ _ I2)) as B2. cbn in B2.
+      assert (E2 : wb_pos w2 = order s) by (apply ple_antisym; auto).
+      (* two live items start at [order] *)
+      pose proof (in_items_trans _ _ Iwb) as A1. pose proof (in_items_reord _ _ I2) as A2.
+      unfold SchedCOrder.iv_wb in A1, A2. rewrite Ep in A1. rewrite E2 in A2.
+      pose proof (tiling_distinct _ _ _ _ _ _ T A1 A2) as Eb.
+      pose proof (tiling_once _ _ _ (order s, wb_next wb) T) as Once.
+      assert (2 <= cnt (order s, wb_next wb) (items s)); [|lia].
+      unfold SchedCOrder.items. rewrite !cnt_app.
+      assert (0 < cnt (order s, wb_next wb) (map iv_wb (trans_q s))).
+      { apply cnt_pos_in. apply in_map_iff. exists wb. split; auto. unfold SchedCOrder.iv_wb. congruence. }
+      assert (0 < cnt (order s, wb_next wb) (map iv_wb (reord_q s))).
+      { apply cnt_pos_in. apply in_map_iff. exists w2. split; auto. unfold SchedCOrder.iv_wb. congruence. }
+      lia.
+    - (* it waits in reord_q: reorder is ready *)
+      apply in_map_iff in Hb. destruct Hb as (wb & Ewb & Iwb).
+      assert (Ep : wb_pos wb = order s) by (unfold SchedCOrder.iv_wb in Ewb; congruence).
+      destruct (sorted_head_at (@wb_pos Enc) _ _ _ (p_sr _ _ _ P) Iwb Ep) as (h & t & Er & Eh).
+      { intros y Hy. apply (Bnd (iv_wb y)). apply in_items_reord; auto. }
+      pose proof (select_none_not_ready _ T_reorder Sel) as Nr.
+      unfold ready, task_guard, can_reorder in Nr. cbn [view g_reord_q g_order] in Nr.
+      rewrite Er in Nr. cbn [map q_empty negb andb peek_pos hd] in Nr. rewrite Eh in Nr.
+      assert (Epe : pos_eq (order s) (order s) = true) by (apply pos_eq_spec; reflexivity).
+      rewrite Epe in Nr. discriminate Nr.
+  Qed.
+
   Theorem progress_inv (s : state) : Inv s -> Inv2 s -> OInv s -> PInv s -> NL s -> 1 <= nw s ->
+    (forall k, rd s <> RRun k) -> (forall k, wr s <> SRun k) ->
     final s = false -> exists e s', step s e = Some s' /\ productive s e = true.
   Proof.
-    intros I J O P Hnl N NF.
+    intros I J O P Hnl N Hrr Hsr NF.
     destruct (lock s) as [t|] eqn:L.
     { (* the holder of the mutex can always go on *)
       destruct (i_lock I _ L) as (i & p & -> & Hi & Hp). exists (TW i).
@@ -321,15 +490,96 @@ Section Prog.
     2:{ exists TR. unfold SchedC.step, SchedC.step_obs, reader_step, productive. rewrite Er, (lock_free_none _ L).
         destruct (input s) as [|d r]; [eexists; split; reflexivity|].
         destruct (data_len d =? 0)%N; eexists; split; reflexivity. }
-    2:{ exfalso. pose proof (i_in I) as Hin. clear -Er. discriminate. }
+    2:{ exfalso. eapply Hrr; eauto. }
     2:{ exists TR. unfold SchedC.step, SchedC.step_obs, reader_step, productive. rewrite Er, (lock_free_none _ L).
         eexists; split; reflexivity. }
     all: (* writer *)
       destruct (wr s) eqn:Ew;
       [ | exists TS; unfold SchedC.step, SchedC.step_obs, writer_step, productive; rewrite Ew, (lock_free_none _ L);
           eexists; split; reflexivity
-        | exfalso; clear -Ew; discriminate | ].
-    all: idtac "REM"; match goal with |- ?G => idtac G end.
-  Abort.
+        | exfalso; eapply Hsr; eauto | ].
+    all: try (destruct (in_slots s) as [|m] eqn:Ein;
+              [|exists TR; unfold SchedC.step, SchedC.step_obs, reader_step, productive; rewrite Er, Ein;
+                eexists; split; reflexivity]).
+    all: try (destruct (output_q s) as [|wb oq] eqn:Eq;
+              [|exists TS; unfold SchedC.step, SchedC.step_obs, writer_step, productive; rewrite Ew, Eq;
+                eexists; split; reflexivity]).
+    all: try (destruct (finish s) eqn:Efin;
+              [exists TS; unfold SchedC.step, SchedC.step_obs, writer_step, productive; rewrite Ew, Eq, Efin;
+               eexists; split; reflexivity|]).
+    (* main: join and finish *)
+    all: destruct (forallb (@is_exit _) (workers s) && negb (finish s) &&
+                  match rd s with RDone => true | _ => false end) eqn:Em.
+    all: try solve [ exists TM; unfold SchedC.step, SchedC.step_obs, main_step, productive;
+                     rewrite Em; eexists; split; reflexivity ].
+    (* quiescent: impossible *)
+    all: exfalso; eapply (quiescent_false s I J O P Hnl N L Aw Wk); eauto.
+    all: try solve [ intros (H1 & H2 & H3); rewrite H1, H2, Er in Em; cbn in Em; discriminate Em ].
+    all: try solve [ intros (H1 & H2 & H3); rewrite H1, H2, H3 in Em; cbn in Em; discriminate Em ].
+  Qed.
+
+  Lemma norun n u l inp s : reachable n u l inp s -> (forall k, rd s <> RRun k) /\ (forall k, wr s <> SRun k).
+  Proof.
+    intros R. unfold SchedCInv.reachable in R. induction R as [|s e s' R IH H].
+    - split; intros k; discriminate.
+    - destruct IH as [A B]. apply step_Step in H.
+      destruct H; rewrite ?sched_unlock_eq, ?task_return_eq; cbn; split; intros k; try apply A; try apply B; try discriminate.
+      all: destruct (data_len d <? in_granul (lvl s))%N; discriminate.
+  Qed.
+
+  (* C11_progress (default mode): every reachable non-final state has an enabled
+     productive event: the compression scheduler cannot deadlock *)
+  Theorem c11_progress_default n l inp s : 1 <= n -> reachable n false l inp s -> final s = false ->
+    exists e s', step s e = Some s' /\ productive s e = true.
+  Proof.
+    intros N R NF.
+    destruct (norun _ _ _ _ _ R) as [Hrr Hsr].
+    pose proof (@c11_no_lost_wakeup _ _ data_len enc_empty collect _ _ _ _ _ N R) as Hnl.
+    assert (H : Inv s /\ Inv2 s /\ OInv s /\ PInv s /\ nw s = n).
+    { clear NF Hrr Hsr Hnl. unfold SchedCInv.reachable in R. induction R as [|s e s' R IH H].
+      - split; [apply inv_init|]. split; [apply inv2_init|]. split; [apply oinv_init|]. split; [apply pinv_init|reflexivity].
+      - destruct IH as (I & J & O & P & En).
+        split; [eapply inv_step; eauto|]. split; [eapply inv2_step; eauto|]. split; [eapply oinv_step; eauto|].
+        split; [eapply pinv_step; eauto; lia|].
+        rewrite <- En. apply step_Step in H. destruct H; rewrite ?sched_unlock_eq, ?task_return_eq; reflexivity. }
+    destruct H as (I & J & O & P & En).
+    apply progress_inv; auto. lia.
+  Qed.
+
+  (* the static priorities documented in process.c ("JOB SCHEDULING") and DESIGN.md:
+     collect_seq, then reorder (hand a finished block to the writer as early as
+     possible), then transmit, then collect *)
+  Definition prio (t : task) : nat :=
+    match t with T_collect_seq => 0 | T_reorder => 1 | T_transmit => 2 | T_collect => 3 end.
+
+  (* side condition on the regenerated task_list[] order *)
+  Lemma task_order_by_prio : map prio task_order = [0; 1; 2; 3].
+  Proof. reflexivity. Qed.
+
+  Lemma find_first_sorted (f : task -> bool) l t :
+    StronglySorted (fun a b => prio a < prio b) l -> find f l = Some t ->
+    forall t', In t' l -> prio t' < prio t -> f t' = false.
+  Proof.
+    induction l as [|x l IH]; intros S H t' I L; [destruct I|].
+    apply StronglySorted_inv in S. destruct S as [S1 S2]. rewrite Forall_forall in S2.
+    cbn [find] in H. destruct (f x) eqn:Ex.
+    - injection H as Ht. subst x. destruct I as [It|It].
+      + subst t'. lia.
+      + specialize (S2 _ It). lia.
+    - destruct I as [It|It].
+      + subst t'. exact Ex.
+      + eapply IH; eauto.
+  Qed.
+
+  Lemma task_order_sorted : StronglySorted (fun a b => prio a < prio b) task_order.
+  Proof. unfold task_order. repeat constructor; cbn; lia. Qed.
+
+  (* select_task() picks the ready task of highest static priority *)
+  Theorem c11_priority (s : state) t : next_task s = Some t -> Inv s ->
+    forall t', prio t' < prio t -> ready s t' = false.
+  Proof.
+    intros H I t' L. rewrite (i_nt I) in H. unfold select, select_first in H.
+    eapply find_first_sorted; eauto. apply task_order_sorted. apply all_tasks_listed.
+  Qed.
 
 End Prog.
